@@ -78,8 +78,10 @@ prop("C19", [
     assumptions=["yaml-rust's loader and the big key-dispatch match of load_config_from_string are not under contract (external parser; closure/iterator heavy)",
                  "str_prefix*/parse_routes/parse_prefix error paths repaired by fix commits but their bodies (split/parse/collect chains) are not under contract"])
 prop("C20", [
+    dict(engine="verus", unit="httpd", fns=["lease_entries"]),
     dict(POOL_B, checks=["sql_metrics", "sql_list"]),
-], level="exploration", explanation="gauge query and lease listing query against the row set, bounded exhaustive on real SQLite")
+], explanation="listing: one formatted entry per row returned by get_leases (Verus, slice of serve_leases); gauge query and listing query against the row set, bounded exhaustive on real SQLite",
+    assumptions=["JSON validity of the formatted text is NOT decided (core::fmt is outside Verus; Kani too expensive)", "update_metrics gauge wiring (async, prometheus) not under contract"])
 
 prop("C02", [
     dict(engine="verus", unit="dhcpranges"),
